@@ -13,17 +13,27 @@
   Assumption about networkx (`TopoGood topo`): on a well-formed acyclic graph `topological_sort` returns a list of
   exactly the nodes.
 
-  -- OPEN: id_fail_hedge : identify topo G X Y = .error .unidentifiable → ∃ F F', Hedge G X Y F F'
-  --   (Shpitser–Pearl 2006, Thm 5; the hedge has to be transported from the failing sub-problem back through
-  --    lines 2, 3, 4, 7 to the original query).  Proved instead: `id_fail_hedge_partial` — the refusal is raised by
-  --    line 5 on a sub-problem reached by the recursion, and that sub-problem has the hedge F = V', F' = V' ∖ X'.
-  --   The converse (hedge ⇒ refusal) follows from `id_sound` and the non-identifiability of hedges (literature,
-  --    not mechanised).  Both directions are decided per input by the two independent procedures of the harness.
+  * refusal ⇒ hedge: `id_fail_hedge` — if ID refuses a valid query `P(Y | do(X))` on `G` then `G` contains a hedge for
+    `P_x(y)` (Y0/Spec/Hedge.lean; Shpitser–Pearl 2006, Thm 5): the refusal is raised by line 5 on a sub-problem reached
+    by the recursion, that sub-problem has the hedge `F = V'`, `F' = V' ∖ X'` (`line5_hedge`), and every line of the
+    recursion transports hedges back to its caller with the same vertex sets (`step_hedge`, `reach_hedge`).
+
+  * hedge ⇒ refusal: `id_hedge_fail` — proved on the graph, with no appeal to probability: a hedge survives every line
+    of the recursion (it is a hedge of the sub-problem of lines 2, 3, 7 and of one of the sub-problems of line 4) and
+    excludes lines 1 and 6 (`step_hedge_down`), so ID cannot return an estimand and, being total, refuses.
+  * `id_fail_iff_hedge`: **ID refuses exactly when a hedge exists**; `id_ok_iff_no_hedge`: it returns an estimand exactly
+    when none exists.
+
+  Not mechanised (literature, Shpitser–Pearl 2006 Thm 4): "a hedge exists ⇒ the effect is not identifiable from P(v)"
+  (two models agreeing on P(v) and differing on P_x(y)).  The other half of "refuses exactly when not identifiable" IS a
+  theorem: an estimand is returned only when the effect is identifiable, with that estimand (`id_sound`, C01).
   -- R: "leaves the caller's graph and query objects unchanged" is a Python-runtime clause (the model is pure).
 -/
 import Y0.Lemmas.IdTotal
 import Y0.Lemmas.IdTopoAnc
 import Y0.Lemmas.IdHedge
+import Y0.Lemmas.IdHedgeTransport
+import Y0.Lemmas.IdHedgeDown
 import Y0.Lemmas.IdFuel
 
 namespace Y0
@@ -122,14 +132,14 @@ theorem step_refusal_line5 {topo : MG Name → Except Err (List Name)} (ht : Top
       ∃ anc anc', Pre I anc anc' :=
   step_error' hv ht h
 
-/-- **C02, refusal ⇒ hedge (partial).** If ID refuses a valid query, then the recursion reached a sub-problem
-`(G', X', Y')` (`Reach`: through lines 2, 3, 4, 7) on which line 5 fired, and in that sub-problem `V'` and `V' ∖ X'`
-form a hedge for `P_{x'}(y')` (Y0/Spec/Hedge.lean).  What is OPEN is transporting this hedge back to the original
-graph and query (Shpitser–Pearl 2006, Theorem 5). -/
-theorem id_fail_hedge_partial {topo : MG Name → Except Err (List Name)} (ht : TopoGood topo) (G : MG Name)
+/-- the refusing sub-problem: if ID refuses a valid query, then the recursion reached a sub-problem `(G', X', Y')`
+(`Reach`: through lines 2, 3, 4, 7) on which line 5 fired, and in that sub-problem `V'` and `V' ∖ X'` form a hedge for
+`P_{x'}(y')` (Y0/Spec/Hedge.lean) -/
+theorem id_fail_hedge_sub {topo : MG Name → Except Err (List Name)} (ht : TopoGood topo) (G : MG Name)
     (X Y : List Name) (hq : ValidQuery G X Y) (hX : ∀ x ∈ X, x ∈ G.nodes)
     (h : identify topo G X Y = .error .unidentifiable) :
-    ∃ (est : Expr) (J : IdIn), Reach topo { G := G, X := X, Y := Y, est := est } J ∧
+    ∃ (est : Expr) (J : IdIn), Valid { G := G, X := X, Y := Y, est := est } ∧
+      Reach topo { G := G, X := X, Y := Y, est := est } J ∧
       J.G.Hedge J.X J.Y (fun v => v ∈ J.G.nodes) (fun v => v ∈ J.G.nodes ∧ v ∉ J.X) := by
   unfold identify at h
   cases hj : pJoint G.nodes with
@@ -151,7 +161,82 @@ theorem id_fail_hedge_partial {topo : MG Name → Except Err (List Name)} (ht : 
       · cases hj; trivial
     have hv : Valid { G := G, X := X, Y := Y, est := est } := ⟨hq.wf, hq.ranked, hq.ysub, hq.yne, hq.disj, hplain⟩
     obtain ⟨J, hreach, hvJ, hxJ, hstep⟩ := idAlg_refusal ht _ hv hX h
-    exact ⟨est, J, hreach, line5_hedge hvJ hxJ ht hstep⟩
+    exact ⟨est, J, hv, hreach, line5_hedge hvJ hxJ ht hstep⟩
+
+/-- **C02, refusal ⇒ hedge.** If ID refuses a valid query `P(Y | do(X))` (treatments inside the graph), the graph
+contains a hedge for `P_x(y)`: vertex sets `F' ⊆ F`, both connected by bidirected edges, `F` meeting `X`, `F'` avoiding
+it, with a common root set inside `An(Y)` of `G` with the edges into `X` removed (Shpitser–Pearl 2006, Theorem 5).  The
+hedge is the one line 5 saw — all nodes of the refusing sub-problem, and those outside its treatments. -/
+theorem id_fail_hedge {topo : MG Name → Except Err (List Name)} (ht : TopoGood topo) (G : MG Name)
+    (X Y : List Name) (hq : ValidQuery G X Y) (hX : ∀ x ∈ X, x ∈ G.nodes)
+    (h : identify topo G X Y = .error .unidentifiable) : ∃ F F', G.Hedge X Y F F' := by
+  obtain ⟨est, J, hv, hreach, hh⟩ := id_fail_hedge_sub ht G X Y hq hX h
+  exact ⟨_, _, reach_hedge hreach hv hh⟩
+
+/-- **C02, hedge ⇒ refusal.** If the graph contains a hedge for `P_x(y)`, ID refuses the (valid) query. -/
+theorem id_hedge_fail {topo : MG Name → Except Err (List Name)} (ht : TopoGood topo) (G : MG Name)
+    (X Y : List Name) (hq : ValidQuery G X Y) {F F' : Name → Prop} (hh : G.Hedge X Y F F') :
+    identify topo G X Y = .error .unidentifiable := by
+  unfold identify
+  cases hj : pJoint G.nodes with
+  | error e =>
+    exfalso
+    have hne : G.nodes ≠ [] := by
+      obtain ⟨y, hy⟩ := List.exists_mem_of_ne_nil _ hq.yne
+      exact List.ne_nil_of_mem (hq.ysub y hy)
+    unfold pJoint at hj
+    split at hj
+    · rename_i hs; exact sortNames_ne_nil hne hs
+    · cases hj
+  | ok est =>
+    have hplain : EstPlain est := by
+      unfold pJoint at hj
+      split at hj
+      · cases hj
+      · cases hj; trivial
+    simp only [bind, Except.bind]
+    exact idAlg_hedge_refuses ht { G := G, X := X, Y := Y, est := est }
+      ⟨hq.wf, hq.ranked, hq.ysub, hq.yne, hq.disj, hplain⟩ hh
+
+/-- **C02: ID refuses exactly when a hedge exists.** -/
+theorem id_fail_iff_hedge {topo : MG Name → Except Err (List Name)} (ht : TopoGood topo) (G : MG Name)
+    (X Y : List Name) (hq : ValidQuery G X Y) (hX : ∀ x ∈ X, x ∈ G.nodes) :
+    identify topo G X Y = .error .unidentifiable ↔ ∃ F F', G.Hedge X Y F F' :=
+  ⟨id_fail_hedge ht G X Y hq hX, fun ⟨_, _, hh⟩ => id_hedge_fail ht G X Y hq hh⟩
+
+/-- … and returns an estimand exactly when there is none -/
+theorem id_ok_iff_no_hedge {topo : MG Name → Except Err (List Name)} (ht : TopoGood topo) (G : MG Name)
+    (X Y : List Name) (hq : ValidQuery G X Y) (hX : ∀ x ∈ X, x ∈ G.nodes) :
+    (∃ e, identify topo G X Y = .ok e) ↔ ¬ ∃ F F', G.Hedge X Y F F' := by
+  rw [← id_fail_iff_hedge ht G X Y hq hX]
+  constructor
+  · rintro ⟨e, he⟩ h
+    rw [he] at h
+    cases h
+  · intro h
+    rcases id_total ht G X Y hq with he | he
+    · exact he
+    · exact absurd he h
+
+/-- through the public wrapper: `identify_outcomes` returns `None` only when a hedge exists -/
+theorem identifyOutcomes_none_hedge {topo : MG Name → Except Err (List Name)} (ht : TopoGood topo) (G : MG Name)
+    (X Y : List Name) (hq : ValidQuery G X Y) (hX : ∀ x ∈ X, x ∈ G.nodes)
+    (h : identifyOutcomes topo G X Y = .ok none) : ∃ F F', G.Hedge X Y F F' := by
+  unfold identifyOutcomes at h
+  cases hi : identify topo G X Y with
+  | ok e => rw [hi] at h; cases h
+  | error e =>
+    rw [hi] at h
+    cases e with
+    | unidentifiable => exact id_fail_hedge ht G X Y hq hX hi
+    | invalidInput k => cases h
+    | internal k => cases h
+
+/-- closed form: executable sorter, relational acyclicity -/
+theorem id_fail_hedge_acyclic (G : MG Name) (X Y : List Name) (hG : G.WF) (hac : G.Acyclic)
+    (hY : ∀ y ∈ Y, y ∈ G.nodes) (hne : Y ≠ []) (hdisj : ∀ y ∈ Y, y ∉ X) (hX : ∀ x ∈ X, x ∈ G.nodes)
+    (h : identify ancTopo G X Y = .error .unidentifiable) : ∃ F F', G.Hedge X Y F F' :=
+  id_fail_hedge ancTopo_good G X Y ⟨hG, MG.acyclic_ranked hG hac, hY, hne, hdisj⟩ hX h
 
 /-- **C02, totality, closed form.** With an executable topological sorter that provably meets the assumption
 (`ancTopo`: sort by number of ancestors, `ancTopo_good`), for every well-formed graph without directed cycles
@@ -178,5 +263,38 @@ example : idAlg MG.topologicalSort
         est := .prob none [Var.plain 0, Var.plain 1] [] } = .error .unidentifiable := by
     unfold step; rfl
   rw [this]
+
+/-- the bow arc query is refused by `identify` itself, so `id_fail_hedge` applies to it … -/
+example : identify checkedTopo (MG.fromEdges [0, 1] [(0, 1)] [(0, 1)]) [0] [1] = .error .unidentifiable := by
+  unfold identify
+  have hj : pJoint (MG.fromEdges [0, 1] [(0, 1)] [(0, 1)]).nodes = .ok (.prob none [Var.plain 0, Var.plain 1] []) := by
+    rfl
+  rw [hj]
+  simp only [bind, Except.bind]
+  rw [idAlg_eq]
+  have : step checkedTopo
+      { G := MG.fromEdges [0, 1] [(0, 1)] [(0, 1)], X := [0], Y := [1],
+        est := .prob none [Var.plain 0, Var.plain 1] [] } = .error .unidentifiable := by
+    unfold step; rfl
+  rw [this]
+
+/-- … and the hedge it promises is `F = {X, Y}`, `F' = {Y}` -/
+example : (MG.fromEdges [0, 1] [(0, 1)] [(0, 1)]).Hedge [0] [1] (fun v => v = 0 ∨ v = 1) (fun v => v = 1) := by
+  refine ⟨fun v h => Or.inr h, ?_, ⟨0, by simp, Or.inl rfl⟩, ?_, ⟨1, rfl⟩, ?_, ?_, ?_⟩
+  · rintro v (rfl | rfl) <;> decide
+  · rintro v rfl; decide
+  · have e : (MG.fromEdges [0, 1] [(0, 1)] [(0, 1)]).BiEdge 0 1 := by unfold MG.BiEdge; decide
+    rintro u v (rfl | rfl) (rfl | rfl)
+    · exact .refl
+    · exact .single ⟨e, Or.inl rfl, Or.inr rfl⟩
+    · exact .single ⟨Or.symm e, Or.inr rfl, Or.inl rfl⟩
+    · exact .refl
+  · rintro u v rfl rfl; exact .refl
+  · refine ⟨fun v => v = 1, fun r h => h, ?_, ?_, ?_⟩
+    · rintro r rfl; exact ⟨1, by simp, .refl⟩
+    · rintro v (rfl | rfl)
+      · exact ⟨1, rfl, .single ⟨by unfold MG.DiEdge; decide, Or.inl rfl, Or.inr rfl⟩⟩
+      · exact ⟨1, rfl, .refl⟩
+    · rintro v rfl; exact ⟨1, rfl, .refl⟩
 
 end Y0
